@@ -358,20 +358,28 @@ macro_rules! impl_tryfrom_integer {
                             if matches!(e, lexical_core::Error::InvalidDigit(_)) {
                                 let value = lexical_core::parse::<$intermediate>(value)?;
 
-                                if !value.is_normal() {
-                                    Err(lexical_core::Error::Overflow(0).into())
-                                } else if value > (<$from>::MAX as $intermediate) {
-                                    Err(lexical_core::Error::Overflow(0).into())
-                                } else if value < (<$from>::MIN as $intermediate) {
-                                    Err(lexical_core::Error::Underflow(0).into())
+                                if value.is_nan() {
+                                    Err(lexical_core::Error::InvalidDigit(0))
                                 } else {
                                     // <f32|f64>::round() doesn't exist in no_std...
-                                    // Safe because value is checked to be normal and within bounds earlier
-                                    if value.is_sign_positive() {
-                                        Ok(unsafe { (value + 0.5).to_int_unchecked() })
+                                    // Round half away from zero: truncate (the float to i128
+                                    // cast saturates), the fraction left over is exact.
+                                    let truncated = value as i128;
+                                    let fraction = value - (truncated as $intermediate);
+                                    let rounded = if fraction >= 0.5 {
+                                        truncated.saturating_add(1)
+                                    } else if fraction <= -0.5 {
+                                        truncated.saturating_sub(1)
                                     } else {
-                                        Ok(unsafe { (value - 0.5).to_int_unchecked() })
-                                    }
+                                        truncated
+                                    };
+                                    <$from>::try_from(rounded).map_err(|_| {
+                                        if value.is_sign_positive() {
+                                            lexical_core::Error::Overflow(0)
+                                        } else {
+                                            lexical_core::Error::Underflow(0)
+                                        }
+                                    })
                                 }
                             } else {
                                 Err(e)
